@@ -28,7 +28,9 @@ script, a signature hash or a witness of its own):
     extractor    psbt.extract_tx(finalized)
 
 CASE (pure JSON).  Top level: seeds, inputs, outputs, psbt_version, tx_version, lock_time,
-sign_order, combine, plus serialize_between_roles (every hand-off goes through
+sign_order, combine, funding (optional: {"sats_per_kvbyte", "dust_sats_per_kvbyte", "change_script": hex | null} --
+tx_builder.build_psbt then makes the psbt out of the updated inputs and the payments, and result["funded"] reports
+its fee, change_index and change), stop_after (optional "estimate": nothing is signed), plus serialize_between_roles (every hand-off goes through
 Psbt.b64encode/b64decode), solver_scope ("needed" | "all_wsh": descriptors.miniscript_solver is
 also offered the wsh multisig inputs), required_locktimes (v2 only: inputs whose script has a
 satisfied after() carry PSBT_IN_REQUIRED_*_LOCKTIME = lock_time).
@@ -664,13 +666,6 @@ def run_world(case):
                         psbt_in.required_time_lock_time = case["lock_time"]
             psbt.assert_valid()
 
-        with _Stage("update_output"):
-            for o, (tx_out, desc) in enumerate(zip(outputs, out_descs, strict=True)):
-                if desc is not None:
-                    psbt = desc.update_psbt_output(psbt, o, tx_out["index"])
-            unsigned = hand_off(psbt)
-            result["unsigned_psbt_b64"] = unsigned.b64encode()
-
         def chosen_leaf_hash(psbt_, i):
             """The tapleaf hash of the leaf the case spends: leaves come left to right."""
             leaves = list(in_descs[i].taproot_leaf_scripts(inputs[i]["index"]).values())
@@ -689,7 +684,8 @@ def run_world(case):
             )
 
         by_outpoint = {(tx_in.prev_out.tx_id, tx_in.prev_out.vout): i for i, tx_in in enumerate(vin)}
-        unsigned_tx = unsigned.tx
+        # version, lock time and sequences are those of `tx`, whichever outputs the psbt ends up with
+        unsigned_tx = tx
 
         def sizer(psbt_in, tx_in):
             i = by_outpoint[(tx_in.prev_out.tx_id, tx_in.prev_out.vout)]
@@ -721,12 +717,54 @@ def run_world(case):
             )
             return [len(element) for element in witness.stack]
 
+        funding = case.get("funding")
+        if funding:
+            # tx_builder.build_psbt takes over from the creator: same inputs (the updated maps),
+            # same payments, and the fee / change decision is the library's
+            with _Stage("funding"):
+                from btclib.fee import FeeRate
+                from btclib.tx_builder import build_psbt
+
+                change_script = funding.get("change_script")
+                funded = build_psbt(
+                    psbt.inputs,
+                    vout,
+                    FeeRate(sats_per_kvbyte=funding["sats_per_kvbyte"]),
+                    None if change_script is None else bytes.fromhex(change_script),
+                    tx_version=case["tx_version"],
+                    lock_time=case["lock_time"],
+                    dust_fee_rate=FeeRate(sats_per_kvbyte=funding.get("dust_sats_per_kvbyte", 3000)),
+                    sizer=sizer,
+                )
+                psbt = funded.psbt
+                result["funded"] = {
+                    "fee": funded.fee,
+                    "change_index": funded.change_index,
+                    "change": funded.change,
+                    "n_outputs": len(psbt.outputs),
+                    "estimated_vsize": psbt.vsize_estimate(sizer),
+                }
+            if case["psbt_version"] == 2:
+                with _Stage("to_v2"):
+                    psbt = psbt.to_v2()
+
+        with _Stage("update_output"):
+            for o, (tx_out, desc) in enumerate(zip(outputs, out_descs, strict=True)):
+                if desc is not None:
+                    psbt = desc.update_psbt_output(psbt, o, tx_out["index"])
+            unsigned = hand_off(psbt)
+            result["unsigned_psbt_b64"] = unsigned.b64encode()
+
         try:
             result["estimated_weight"] = unsigned.weight_estimate(sizer)
         except Exception as e:  # noqa: BLE001  not fatal for the spend itself: reported
             result["estimated_weight"] = None
             result["estimate_error"] = f"{type(e).__name__}: {e}"
             notes.append(f"estimate refused: {type(e).__name__}: {e}")
+        if case.get("stop_after") == "estimate":
+            result["ok"] = True
+            result["stopped"] = "estimate"
+            return result
 
         with _Stage("sign"):
             order = [signers[s] for s in case["sign_order"]]
